@@ -103,4 +103,15 @@ PROPERTIES = {
         assumptions=E_ASSUMPTIONS + ["responses are observed through a recording ResponseWriter that freezes status and headers at the first WriteHeader/Write (net/http's documented rule)",
                                      "binary transport: decoding the bytes of one message type as another type is outside the model (client mapping checked only where types coincide)",
                                      "request/header validation failures (BindingMiddleware exits), field paths of rule violations, and the TS client/server are not yet part of this check"]),
+    "C19": dict(mode="G", load_pkgs=["./internal/openapiv3"], pkgpath=MOD + "/internal/openapiv3", test_pkg="./internal/openapiv3", test_pkgname="openapiv3",
+                init=DEFAULT_INIT + ["buf.build/gen/go/bufbuild/protovalidate/protocolbuffers/go/buf/validate"],
+                overlay={"internal/openapiv3/zz_verif_c19.go": "harness/c19/c19_rules.go"},
+                harnesses=[dict(func="VerifC19Int32", reach=["C19/int32/decided", "C19/int32/exclusive"], quick=dict(budget=200), thorough=dict(budget=600)),
+                           dict(func="VerifC19Uint32", reach=["C19/uint32/decided"], quick=dict(budget=200), thorough=dict(budget=600)),
+                           dict(func="VerifC19Collections", reach=["C19/collections/decided"], quick=dict(budget=200), thorough=dict(budget=600)),
+                           dict(func="VerifC19String", reach=["C19/string/decided"], quick=dict(budget=200), thorough=dict(budget=600))],
+                bounds_text={"quick": "int32/uint32: lower bound in {none,gte,gt} x upper bound in {none,lte,lt} x const x in-list of 0..2 values, all values and the probe over the full 32-bit range; "
+                                      "collections: min/max items/pairs < 2^62, sizes 0..3; strings: min/max length < 2^62 (probe length as a number), const/in with strings <= 4, 8 well-known formats"},
+                assumptions=["rule pairs with upper bound below lower bound (buf.validate's reversed-range semantics) are assumed away",
+                             "the schema is read from the base.Schema object the real code fills (keywords Minimum/Maximum/ExclusiveMinimum/ExclusiveMaximum/Const/Enum/Min-MaxLength/Items/Properties/UniqueItems/Format); its type pairing (string-encoded int64), float/double kinds, pattern and YAML rendering of const/enum scalars are not part of this check yet"]),
 }
